@@ -199,6 +199,10 @@ fn scenario(ctx: &mut Ctx, rng: &mut Rng, k: usize, d: u8, h: u8, w: u8, count: 
     if emit_verify(ctx, "verify:wrong-key", d, h, w, &data, count, seed, &key2, &p) != Some(false) { bad(ctx, "wrong_accepted", "proof accepted under another session key", &digits); }
     let mut p3 = p; p3[rng.below(20) as usize] ^= 1 << rng.below(8);
     if emit_verify(ctx, "verify:proof-bit-flip", d, h, w, &data, count, seed, &key, &p3) != Some(false) { bad(ctx, "wrong_accepted", "flipped proof accepted", &digits); }
+    let nm = near_misses(rng, &p);
+    let (wv, _) = &nm[rng.below(nm.len() as u64) as usize];
+    let mut p4 = p; p4.copy_from_slice(wv);
+    if emit_verify(ctx, "verify:proof-near-miss", d, h, w, &data, count, seed, &key, &p4) != Some(false) { bad(ctx, "wrong_accepted", "near-miss proof (cancelling / confined differences) accepted", &digits); }
 }
 
 // ---------------------------------------------------------------- implementation-only oracle
